@@ -433,11 +433,14 @@ def load_template(unit, path, srcmap, seen=None):
                 elif ts.startswith('//@after '):
                     cur = ('after', parse_regex_arg(ts[len('//@after '):], 'after'), [])
                     blk['sections'].append(cur)
-                elif ts.startswith('//@replace '):
-                    m = re.match(r'//@replace\s+/(.*?)/\s*=>\s?(.*)$', ts)
+                elif ts.startswith('//@replace ') or re.match(r'//@replace=\d+ ', ts):
+                    # `//@replace=N /re/ => text`: the rule must fire exactly N times (a different number of sites
+                    # is a lost anchor: exit 2, never an alarm)
+                    m = re.match(r'//@replace(?:=(\d+))?\s+/(.*?)/\s*=>\s?(.*)$', ts)
                     if not m:
                         raise ExtractError('%s:%d: bad replace' % (rel, i + 1))
-                    blk['replaces'].append(('replace', m.group(1), m.group(2).replace('\\n', '\n')))
+                    rx = m.group(2) if m.group(1) is None else (m.group(2), int(m.group(1)))
+                    blk['replaces'].append(('replace', rx, m.group(3).replace('\\n', '\n')))
                 elif ts.startswith('//@attr '):
                     blk['attrs'].append((ts[len('//@attr '):], i + 1))
                 elif ts.startswith('//@'):
